@@ -1,9 +1,143 @@
-import EphVerif.Model.Relay
-import EphVerif.Spec.Relay
+/-
+C26 — the relay never crashes and releases everything once clients leave (partial).
+
+Proved here, for every event sequence over any number of clients: the protocol handling never fails
+to terminate (`total`), and once every accepted client has seen EOF or an error the relay holds no
+session, no registration and no open client descriptor, each descriptor having been closed exactly
+once (`release`).  NOT proved: memory safety of the compiled C++ (observed with ASan/UBSan in the
+correspondence harness), and bounded buffering.
+-/
+import EphVerif.Lemmas.C26Release
 
 namespace EphVerif.C26
-open EphVerif.Relay
+open EphVerif.Relay EphVerif.RelaySpec
 
-theorem kPeerIdBytes_eq : EphVerif.Gen.C25.kPeerIdBytes = 32 := by decide
+/-- `C26.total`: on arbitrary bytes in arbitrary chunks, process_protocol always returns: neither the
+    branch in which the C++ would spin forever (handle_identity_ready closing the session inside the
+    loop) nor fuel exhaustion of the model is reachable. -/
+theorem total (evs : List Event) : (run init evs).hung = false :=
+  (run_ok evs).1.notHung
+
+/-- the byte-level parsers are total functions on arbitrary input (they are structurally recursive Lean
+    definitions); what they return on a buffer is the unique split at the first newline -/
+theorem splitLine_spec (b : Bytes) :
+    (splitLine b = none ∧ nl ∉ b) ∨ (∃ l r, splitLine b = some (l, r) ∧ b = l ++ nl :: r ∧ nl ∉ l) := by
+  induction b with
+  | nil => left; simp [splitLine]
+  | cons x xs ih =>
+    unfold splitLine
+    by_cases e : x == nl
+    · right; refine ⟨[], xs, by simp [e], ?_, by simp⟩
+      have : x = nl := by simpa using e
+      simp [this]
+    · have hne : x ≠ nl := by simpa using e
+      rcases ih with ⟨h, hn⟩ | ⟨l, r, h, hb, hn⟩
+      · left; simp [e, h]; exact ⟨fun h' => hne h'.symm, hn⟩
+      · right; refine ⟨x :: l, r, by simp [e, h], by simp [hb], ?_⟩
+        simp; exact ⟨fun h' => hne h'.symm, hn⟩
+
+/-- a client has left: after the event that accepted it, the relay saw EOF or an error for it -/
+def Left (evs : List Event) (c : Client) : Prop :=
+  ∃ pre post, evs = pre ++ post ∧ Event.accept c ∈ pre ∧ (Event.eof c ∈ post ∨ Event.err c ∈ post)
+
+/-- `C26.release`: after any event sequence in which every accepted client has left, the relay holds no
+    session and no registration, and the descriptors closed so far (a duplicate-free list: none closed twice) are
+    exactly those of the accepted clients: each one closed exactly once. -/
+theorem release (evs : List Event) (h : ∀ c, Event.accept c ∈ evs → Left evs c) :
+    (run init evs).sessions = [] ∧ (run init evs).registered = [] ∧
+    (closedList (run init evs)).Nodup ∧
+    (∀ c, Event.accept c ∈ evs ↔ c ∈ closedList (run init evs)) := by
+  obtain ⟨hI, hA⟩ := run_ok evs
+  have hgone : ∀ c, (run init evs).get c = none := by
+    intro c
+    by_cases hu : c ∈ (run init evs).used
+    · have hacc : Event.accept c ∈ evs := by
+        rcases accept_of_used evs init inv_init acc_init c hu with h0 | h0
+        · simp [init] at h0
+        · exact h0
+      obtain ⟨pre, post, rfl, hpre, hpost⟩ := h c hacc
+      rw [run_append]
+      obtain ⟨hI1, hA1⟩ := run_ok pre
+      exact left_gone post _ hI1 hA1 c (used_of_accept pre init inv_init acc_init c hpre) hpost
+    · cases hg : (run init evs).get c with
+      | none => rfl
+      | some s => exact absurd (hA.live c (by simp [hg])) hu
+  refine ⟨sessions_eq_nil _ hgone, registered_eq_nil _ ?_, hA.nodup, fun c => ⟨?_, ?_⟩⟩
+  · intro k
+    cases hr : (run init evs).reg k with
+    | none => rfl
+    | some d =>
+      have := (hI.regOK k d hr).1
+      simp [State.stateOf, hgone d] at this
+  · intro hacc
+    have hu := used_of_accept evs init inv_init acc_init c hacc
+    rcases hA.cover c hu with h0 | h0
+    · simp [hgone c] at h0
+    · exact h0
+  · intro hc
+    have hu := (hA.gone c hc).2
+    rcases accept_of_used evs init inv_init acc_init c hu with h0 | h0
+    · simp [init] at h0
+    · exact h0
+
+/-- `C26.release` in the words of the specification -/
+theorem release_spec (evs : List Event) (h : ∀ c, Event.accept c ∈ evs → Left evs c) :
+    Released [] (resourcesOf (run init evs)) := by
+  obtain ⟨hs, hr, _, _⟩ := release evs h
+  simp [Released, resourcesOf, hs, hr]
+
+/-- at every moment: a descriptor is closed at most once, only after it was accepted, and a closed client
+    has no session; every session belongs to an accepted client; no registration outlives its session -/
+theorem accounting (evs : List Event) :
+    (closedList (run init evs)).Nodup ∧
+    (∀ c ∈ closedList (run init evs), (run init evs).get c = none ∧ Event.accept c ∈ evs) ∧
+    (∀ c, ((run init evs).get c).isSome → Event.accept c ∈ evs) ∧
+    (∀ k d, (run init evs).reg k = some d → ((run init evs).get d).isSome) := by
+  obtain ⟨hI, hA⟩ := run_ok evs
+  have hacc : ∀ c, c ∈ (run init evs).used → Event.accept c ∈ evs := by
+    intro c hu
+    rcases accept_of_used evs init inv_init acc_init c hu with h0 | h0
+    · simp [init] at h0
+    · exact h0
+  refine ⟨hA.nodup, fun c hc => ⟨(hA.gone c hc).1, hacc c (hA.gone c hc).2⟩, fun c hc => hacc c (hA.live c hc), ?_⟩
+  intro k d hr
+  have := (hI.regOK k d hr).1
+  simp only [State.stateOf] at this
+  cases hg : (run init evs).get d with
+  | none => simp [hg] at this
+  | some s => simp
+
+/-- EOF or an error removes the client's session in the same step -/
+theorem eof_removes (evs : List Event) (c : Client) :
+    (step (run init evs) (.eof c)).get c = none ∧ (step (run init evs) (.err c)).get c = none :=
+  ⟨get_closeSession_self (run_ok evs).1 c, get_closeSession_self (run_ok evs).1 c⟩
+
+/-! ### non-vacuity -/
+
+section examples
+open EphVerif.Gen.C25
+
+def idA : Bytes := List.replicate 64 97
+def idB : Bytes := List.replicate 64 98
+
+/-- four clients (a bridged pair, a registered peer, a client that sent garbage) leave in some order -/
+def history : List Event :=
+  [.accept 1, .accept 2, .accept 3, .accept 4,
+   .recv 1 (cmdRegister ++ [32] ++ idA ++ [10]), .recv 3 (cmdRegister ++ [32] ++ idB ++ [13, 10]),
+   .recv 2 (cmdConnect ++ [32] ++ idB ++ [32] ++ idA ++ [10] ++ List.replicate 32 9 ++ [1, 2]),
+   .recv 4 [0, 255, 10, 82, 69], .flush 4 3,
+   .err 4, .eof 2, .eof 3, .eof 1]
+
+set_option maxRecDepth 100000 in
+/-- the hypothesis of `release` is met by a history in which sessions, a registration and a bridge existed -/
+example :
+    ((run init (history.take 9)).sessions.length = 4 ∧ (run init (history.take 9)).registered.length = 1) ∧
+    (run init history).sessions = [] ∧ (run init history).registered = [] ∧
+    closedList (run init history) = [3, 2, 1, 4] := by decide
+
+set_option maxRecDepth 100000 in
+example : Left history 2 := ⟨history.take 4, history.drop 4, by decide, by decide, Or.inl (by decide)⟩
+
+end examples
 
 end EphVerif.C26
